@@ -98,7 +98,13 @@ func init() {
 		"flex-basis":  {singleParser(flexBasisLV), constInitial(s("auto"))},
 		"flex-grow":   {singleParser(numberLV), constInitial(s("n0e0"))},
 		"flex-shrink": {singleParser(numberLV), constInitial(s("n1e0"))},
-		"order":       {singleParser(numberLV), constInitial(s("n0e0"))},
+		"order":       {singleParser(integerLV), constInitial(s("n0e0"))},
+		// <integer> properties: the lexeme must be digits with an optional sign (no dot, no exponent)
+		"z-index":        {singleParser(orKw(integerLV, "auto")), constInitial(s("auto"))},
+		"column-count":   {singleParser(orKw(integerLV, "auto")), constInitial(s("auto"))},
+		"orphans":        {singleParser(integerLV), constInitial(s("n2e0"))},
+		"widows":         {singleParser(integerLV), constInitial(s("n2e0"))},
+		"grid-row-start": {singleParser(orKw(integerLV, "auto")), constInitial(s("auto"))},
 
 		"box-shadow":  {shadowParser(true), constInitial(s("none"))},
 		"text-shadow": {shadowParser(false), constInitial(s("none"))},
